@@ -255,7 +255,7 @@ impl<'a> ExpressionEvaluator<'a> {
 
                     // if there is registers dump for functions entry - use it
                     let bytes =
-                        if let Some(regs) = resolver.entry_registers.remove(&ecx.pid_on_focus()) {
+                        if let Some(regs) = resolver.entry_registers.get(&ecx.pid_on_focus()) {
                             regs.value(register)?
                         } else {
                             let pid = ecx.pid_on_focus();
